@@ -50,6 +50,10 @@ def generate(streams, tier):
                         "black": black, "white": white, "max_indegree": rw.choice([None, 1, 1, 2]), "tabu": rw.choice([0, 0, 0, 3, 100]),
                         "epsilon": rw.choice([1e-4, 1e-4, 0.5, 1e-9]), "max_iter": rw.choice([1000000, 1000000, 1, 2, 5]), "use_cache": rw.random() < 0.7,
                         "cache_size": rw.choice([1, 3, 10000])})
+            if rw.random() < 0.2:
+                # a caller-written, integer-valued score (rows explained by the best state per parent configuration, minus two per
+                # parent) with an integer epsilon: improvements of exactly epsilon occur, the boundary the contract names
+                ops[-1].update({"score": "count", "as_instance": True, "epsilon": rw.choice([1, 1, 2, 3]), "tabu": 0, "max_iter": 1000000})
             if wide and rw.random() < 0.4:
                 # a long unconstrained climb from the empty graph with the tabu list disabled: moves made early have to be undone later
                 ops[-1].update({"start": [], "fixed": [], "black": None, "white": None, "max_indegree": None, "tabu": 0, "epsilon": 1e-4, "max_iter": 1000000})
@@ -58,7 +62,7 @@ def generate(streams, tier):
         else:
             calls = []
             for _ in range(rw.randint(1, 3)):
-                calls.append({"type": rw.choice(["chow-liu", "chow-liu", "tan"]), "weights": rw.choice(["mutual_info", "mutual_info", "normalized_mutual_info", "callable_sq"]),
+                calls.append({"type": rw.choice(["chow-liu", "chow-liu", "tan"]), "weights": rw.choice(["mutual_info", "mutual_info", "normalized_mutual_info", "callable_sq", "callable_agree"]),
                               "class_node": rw.randrange(n)})
             ops.append({"op": "tree", "root": rw.randrange(n), "n_jobs": rw.choice([1, 2, -1]), "jobseed": rw.randrange(2**31), "calls": calls})
     if ops and all(o["op"] == "tree" for o in ops) and rw.random() < 0.5:
@@ -81,6 +85,13 @@ class RefScorer:
 
     def local(self, v, parents):
         key = (v, tuple(sorted(parents)))
+        if key not in self.memo and self.kind == "count":
+            best = {}
+            for r in self.rows:
+                cfg = tuple(r[p] for p in sorted(parents))
+                d = best.setdefault(cfg, {})
+                d[r[v]] = d.get(r[v], 0) + 1
+            self.memo[key] = float(sum(max(d.values()) for d in best.values()) - 2 * len(parents))
         if key not in self.memo:
             # BDs: the search contract is checked against the score as implemented (its deviation from the published
             # definition on unobserved parent configurations is C10's known finding, not a search defect)
@@ -134,7 +145,10 @@ def mutual_info(card, rows, a, b):
     return max(mi, 0.0)
 
 
-def weight_fn(kind, card, rows, a, b):
+def weight_fn(kind, card, rows, a, b, states=None):
+    if kind == "callable_agree":
+        # a caller's weight that reads the VALUES of the two columns (share of rows in which they coincide), not just the partition
+        return 0.05 + sum(1 for r in rows if states[a][r[a]] == states[b][r[b]]) / max(1, len(rows))
     mi = mutual_info(card, rows, a, b)
     if kind == "mutual_info":
         return mi
@@ -171,6 +185,10 @@ def max_spanning_weight(nodes, w):
     return tot
 
 
+def _agree(u, v):
+    return 0.05 + float(np.mean(np.asarray(u, dtype=object) == np.asarray(v, dtype=object)))
+
+
 def _sq_mi(u, v):
     from sklearn.metrics import mutual_info_score
 
@@ -197,7 +215,28 @@ def execute(case, ctx):
             seams.reset_environment()
 
 
+def _count_score_class():
+    from pgmpy.estimators import StructureScore
+
+    class CountScore(StructureScore):
+        """A user-written decomposable score with integer values (see generate)."""
+
+        def local_score(self, variable, parents):
+            parents = list(parents)
+            best = {}
+            cols = [self.data[p].tolist() for p in parents]
+            child = self.data[variable].tolist()
+            for i, c in enumerate(child):
+                d = best.setdefault(tuple(col[i] for col in cols), {})
+                d[c] = d.get(c, 0) + 1
+            return float(sum(max(d.values()) for d in best.values()) - 2 * len(parents))
+
+    return CountScore
+
+
 def _pgmpy_scorer(kind, df, sn, ess):
+    if kind == "count":
+        return _count_score_class()(df, **({"state_names": sn} if sn else {}))
     return c10.scorer(kind, df, sn, ess)
 
 
@@ -320,7 +359,8 @@ def _hill(case, ctx, op):
                             if best is None or d > best[0]:
                                 best = (d, "flip", (x, y))
         ctx.probe("hill_local_optimum_checked")
-        if best is not None and best[0] >= op["epsilon"] + 1e-6:
+        slack = 0.0 if kind == "count" else 1e-6   # integer score: exact arithmetic, the boundary delta == epsilon counts
+        if best is not None and best[0] >= op["epsilon"] + slack:
             ctx.fail("local_optimum", f"{PROP}:hill_improving_move_left", dict(detail, move=[best[1], list(best[2])], delta=best[0], epsilon=op["epsilon"]))
 
 
@@ -415,6 +455,8 @@ def _tree(case, ctx, op):
         cls = call["class_node"] % n
         if typ == "tan" and (cls == root or n < 3):
             continue
+        if typ == "tan" and wkind == "callable_agree":
+            wkind = "callable_sq"
         if typ == "tan" and wkind == "normalized_mutual_info":
             # sklearn defines NMI = 1 for two constant labelings, which occurs inside class-conditional subsets; the stated
             # property is about (strictly positive) mutual-information weights
@@ -427,7 +469,7 @@ def _tree(case, ctx, op):
         ok = True
         for a, b in itertools.combinations(feats, 2):
             if typ == "chow-liu":
-                val = weight_fn(wkind, card, rows, a, b)
+                val = weight_fn(wkind, card, rows, a, b, states=names.states)
             else:
                 val = 0.0
                 for c in range(card[cls]):
@@ -440,7 +482,7 @@ def _tree(case, ctx, op):
         if not ok:
             ctx.probe("tree_zero_weight_pair_skipped")
             continue  # the property is stated for strictly positive pairwise weights
-        fn = _sq_mi if wkind == "callable_sq" else wkind
+        fn = {"callable_sq": _sq_mi, "callable_agree": _agree}.get(wkind, wkind)
         ctx.event("tree", typ, wkind, root, cls, op["n_jobs"])
         try:
             kw = {"class_node": names.L(cls)} if typ == "tan" else {}
